@@ -11,1777 +11,5 @@
 //
 //   h_exc [--alloc log|pool|pool16|stack|heap|all] --tier quick|thorough --out <file>
 //   h_exc [--alloc x] --replay '{"alloc":"log","helper":"joint.size","n":3,"k":2,"slack":0}'
-#include "../engine/core.hpp"
-
-#include <foonathan/memory/allocator_traits.hpp>
-#include <foonathan/memory/debugging.hpp>
-#include <foonathan/memory/heap_allocator.hpp>
-#include <foonathan/memory/joint_allocator.hpp>
-#include <foonathan/memory/memory_pool.hpp>
-#include <foonathan/memory/memory_stack.hpp>
-#include <foonathan/memory/smart_ptr.hpp>
-#include <foonathan/memory/tracking.hpp>
-
-#include <cerrno>
-#include <iterator>
-#include <map>
-#include <memory>
-#include <set>
-#include <typeinfo>
-#include <sys/wait.h>
-#include <utility>
-
-namespace fm = foonathan::memory;
-using namespace verif;
-
-//=== allocator call log ===================================================================================//
-enum aop
-{
-    A_ALLOC_NODE    = 0,
-    A_ALLOC_ARRAY   = 1,
-    A_DEALLOC_NODE  = 2,
-    A_DEALLOC_ARRAY = 3
-};
-static const char* aop_name(int op)
-{
-    static const char* n[] = {"allocate_node", "allocate_array", "deallocate_node", "deallocate_array"};
-    return n[op & 3];
-}
-struct aev
-{
-    int            op;
-    std::size_t    count, size, align;
-    std::uintptr_t addr;
-};
-struct alog
-{
-    std::vector<aev> ev;
-    void             add(int op, void* p, std::size_t count, std::size_t size, std::size_t align)
-    {
-        ev.push_back({op, count, size, align, reinterpret_cast<std::uintptr_t>(p)});
-    }
-};
-
-struct issue
-{
-    std::string tag, detail;
-};
-
-static std::string render(const aev& e, std::uintptr_t base)
-{
-    return fmt("%s(count=%zu,size=%zu,align=%zu)@%+lld", aop_name(e.op), e.count, e.size, e.align,
-               (long long)(e.addr - base));
-}
-
-struct log_state
-{
-    std::map<std::uintptr_t, aev> outstanding;
-    std::vector<issue>            issues;
-};
-
-// replays the whole log: every deallocation must answer an outstanding allocation at the same address with the
-// same kind (node vs array), count, size and alignment
-static log_state analyse(const alog& l)
-{
-    log_state      s;
-    std::uintptr_t base = l.ev.empty() ? 0 : l.ev[0].addr;
-    for (std::size_t i = 0; i != l.ev.size(); ++i)
-    {
-        const aev& e = l.ev[i];
-        if (e.op == A_ALLOC_NODE || e.op == A_ALLOC_ARRAY)
-        {
-            if (e.addr == 0)
-                s.issues.push_back({"alloc-null", fmt("call #%zu %s returned null", i, render(e, base).c_str())});
-            else if (s.outstanding.count(e.addr))
-                s.issues.push_back({"alloc-overlap", fmt("call #%zu %s returned an address that is still allocated",
-                                                         i, render(e, base).c_str())});
-            s.outstanding[e.addr] = e;
-        }
-        else
-        {
-            auto it = s.outstanding.find(e.addr);
-            if (it == s.outstanding.end())
-            {
-                s.issues.push_back({"alloc-release-unowned",
-                                    fmt("call #%zu %s releases memory that is not allocated (released twice or "
-                                        "never handed out)",
-                                        i, render(e, base).c_str())});
-                continue;
-            }
-            const aev& a         = it->second;
-            bool       kind_node = a.op == A_ALLOC_NODE;
-            bool       rel_node  = e.op == A_DEALLOC_NODE;
-            if (kind_node != rel_node)
-                s.issues.push_back({"alloc-kind-mismatch", fmt("%s answered by %s (call #%zu)",
-                                                               render(a, base).c_str(), render(e, base).c_str(), i)});
-            else if (a.count != e.count || a.size != e.size || a.align != e.align)
-                s.issues.push_back({"alloc-param-mismatch", fmt("%s answered by %s (call #%zu)",
-                                                                render(a, base).c_str(), render(e, base).c_str(), i)});
-            s.outstanding.erase(it);
-        }
-    }
-    return s;
-}
-
-//=== fault injection + per-object log =====================================================================//
-enum okind
-{
-    K_DEFAULT = 0,
-    K_VALUE   = 1,
-    K_COPY    = 2,
-    K_MOVE    = 3,
-    K_BODY    = 4, // body of the joint type's constructor (after all members)
-    K_DTOR    = 5
-};
-static const char* okind_name(int k)
-{
-    static const char* n[] = {"default-ctor", "value-ctor", "copy-ctor", "move-ctor", "owner-body", "dtor"};
-    return n[k];
-}
-
-struct world_t;
-extern world_t W;
-
-struct injected
-{
-    unsigned tag;
-    explicit injected(unsigned t);
-    injected(const injected& o);
-    virtual ~injected() {}
-};
-struct injected_derived : injected
-{
-    unsigned tag2;
-    explicit injected_derived(unsigned t) : injected(t), tag2(~t) {}
-};
-
-struct eev
-{
-    int            kind;
-    std::uintptr_t addr;
-    unsigned       serial;
-    bool           in_window;
-};
-
-struct world_t
-{
-    std::vector<eev>                   ev;
-    std::map<std::uintptr_t, unsigned> live; // address -> serial of the object living there
-    std::set<std::uintptr_t>           dead; // addresses whose last object was destroyed
-    unsigned                           next_serial = 1;
-    // fault
-    bool     prepared = false, armed = false;
-    int      fail_at = 0, ops = 0;
-    unsigned tag = 0;
-    int      failing_kind = -1;
-    // window marks
-    unsigned    first_target = 0;
-    std::size_t ev_mark = 0, log_mark = 0;
-    alog*       watched = nullptr;
-    // injected exception bookkeeping
-    const void* thrown_addr    = nullptr;
-    int         injected_made  = 0;
-    int         injected_copies = 0;
-    // anomalies of the per-object log, library reports (handlers)
-    std::vector<issue> anomalies;
-    std::vector<issue> lib_reports;
-    long               kinds[6] = {0, 0, 0, 0, 0, 0};
-
-    void reset()
-    {
-        long k[6];
-        for (int i = 0; i != 6; ++i)
-            k[i] = kinds[i];
-        *this = world_t();
-        for (int i = 0; i != 6; ++i)
-            kinds[i] = k[i];
-    }
-    void prepare(int k, unsigned t)
-    {
-        prepared = true;
-        fail_at  = k;
-        tag      = t;
-    }
-    // start of the armed window: called by the helper right before the library call
-    void go()
-    {
-        armed        = prepared;
-        ops          = 0;
-        first_target = next_serial;
-        ev_mark      = ev.size();
-        log_mark     = watched ? watched->ev.size() : 0;
-    }
-    void disarm()
-    {
-        armed = prepared = false;
-    }
-    void point(int kind, bool can_throw)
-    {
-        if (!armed)
-            return;
-        ++ops;
-        if (can_throw && ops == fail_at)
-        {
-            failing_kind = kind;
-            throw injected_derived(tag);
-        }
-    }
-    unsigned on_ctor(const void* p, int kind, bool can_throw)
-    {
-        point(kind, can_throw);
-        auto a = reinterpret_cast<std::uintptr_t>(p);
-        if (live.count(a))
-            anomalies.push_back({"elem-constructed-over-live",
-                                 fmt("%s at an address where object #%u is still alive", okind_name(kind), live[a])});
-        unsigned s = next_serial++;
-        live[a]    = s;
-        dead.erase(a);
-        ev.push_back({kind, a, s, armed});
-        ++kinds[kind];
-        return s;
-    }
-    void on_dtor(const void* p, const unsigned* serial_field)
-    {
-        auto a  = reinterpret_cast<std::uintptr_t>(p);
-        auto it = live.find(a);
-        ++kinds[K_DTOR];
-        if (it == live.end())
-        {
-            if (dead.count(a))
-                anomalies.push_back({"elem-double-destroy",
-                                     fmt("destructor called a second time on an already destroyed element "
-                                         "(event #%zu)",
-                                         ev.size())});
-            else
-                anomalies.push_back({"elem-destroy-unconstructed",
-                                     fmt("destructor called on storage where no element was ever constructed "
-                                         "(event #%zu)",
-                                         ev.size())});
-            ev.push_back({K_DTOR, a, 0, armed});
-            return;
-        }
-        unsigned s = it->second;
-        if (*serial_field != s)
-            anomalies.push_back({"elem-identity-mismatch",
-                                 fmt("object #%u destroyed but its serial field reads %u", s, *serial_field)});
-        ev.push_back({K_DTOR, a, s, armed});
-        live.erase(it);
-        dead.insert(a);
-    }
-    int live_targets() const
-    {
-        int n = 0;
-        for (auto& kv : live)
-            if (kv.second >= first_target)
-                ++n;
-        return n;
-    }
-    int window_count(bool ctor) const
-    {
-        int n = 0;
-        for (std::size_t i = ev_mark; i < ev.size(); ++i)
-            if (ev[i].serial >= first_target || ev[i].serial == 0)
-                if ((ev[i].kind != K_DTOR) == ctor)
-                    ++n;
-        return n;
-    }
-};
-world_t W;
-
-injected::injected(unsigned t) : tag(t)
-{
-    ++W.injected_made;
-    W.thrown_addr = this;
-}
-injected::injected(const injected& o) : tag(o.tag)
-{
-    ++W.injected_copies;
-}
-
-// element type; NXC / NXM / NXO: copy / move / default+value constructors are noexcept (and then never fail).
-// all true: allocate_array_unique takes the no-rollback path. The mixed variants make conditional exception
-// specifications inside the library observable (noexcept move + throwing copy, and the mirror image).
-template <bool NXC, bool NXM, bool NXO>
-struct elem_t
-{
-    long long value;
-    unsigned  serial;
-    unsigned  magic;
-
-    elem_t() noexcept(NXO) : value(-1), magic(0xE1E2E3E4u)
-    {
-        serial = W.on_ctor(this, K_DEFAULT, !NXO);
-    }
-    explicit elem_t(int v) noexcept(NXO) : value(v), magic(0xE1E2E3E4u)
-    {
-        serial = W.on_ctor(this, K_VALUE, !NXO);
-    }
-    elem_t(const elem_t& o) noexcept(NXC) : value(o.value), magic(0xE1E2E3E4u)
-    {
-        serial = W.on_ctor(this, K_COPY, !NXC);
-    }
-    elem_t(elem_t&& o) noexcept(NXM) : value(o.value), magic(0xE1E2E3E4u)
-    {
-        serial = W.on_ctor(this, K_MOVE, !NXM);
-    }
-    elem_t& operator=(const elem_t&) = delete;
-    ~elem_t()
-    {
-        W.on_dtor(this, &serial);
-    }
-};
-using elem    = elem_t<false, false, false>;
-using elem_nx = elem_t<true, true, true>;
-using elem_mc = elem_t<false, true, false>; // noexcept move, throwing copy (the usual resource-owning class)
-using elem_cm = elem_t<true, false, false>; // throwing move, noexcept copy
-static_assert(std::is_nothrow_move_constructible<elem_mc>::value && !std::is_nothrow_copy_constructible<elem_mc>::value,
-              "elem_mc");
-static_assert(!std::is_nothrow_move_constructible<elem_cm>::value && std::is_nothrow_copy_constructible<elem_cm>::value,
-              "elem_cm");
-static_assert(sizeof(elem_mc) == sizeof(elem) && sizeof(elem_cm) == sizeof(elem), "same layout");
-static_assert(!noexcept(elem()), "elem() must be potentially throwing");
-static_assert(noexcept(elem_nx()), "elem_nx() must be noexcept");
-
-//=== joint type under test ================================================================================//
-struct f_size
-{
-};
-struct f_size_value
-{
-};
-struct f_ilist
-{
-};
-struct f_range
-{
-};
-
-struct owner : fm::joint_type<owner>
-{
-    fm::joint_array<elem> arr;
-
-    owner(fm::joint j, f_size, std::size_t n) : fm::joint_type<owner>(j), arr(n, *this)
-    {
-        W.point(K_BODY, true);
-    }
-    owner(fm::joint j, f_size_value, std::size_t n, const elem& v) : fm::joint_type<owner>(j), arr(n, v, *this)
-    {
-        W.point(K_BODY, true);
-    }
-    owner(fm::joint j, f_ilist, std::initializer_list<elem> il) : fm::joint_type<owner>(j), arr(il, *this)
-    {
-        W.point(K_BODY, true);
-    }
-    template <typename It>
-    owner(fm::joint j, f_range, It b, It e) : fm::joint_type<owner>(j), arr(b, e, *this)
-    {
-        W.point(K_BODY, true);
-    }
-    owner(fm::joint j, const owner& o) : fm::joint_type<owner>(j), arr(o.arr, *this)
-    {
-        W.point(K_BODY, true);
-    }
-    owner(fm::joint j, owner&& o) : fm::joint_type<owner>(j), arr(std::move(o.arr), *this)
-    {
-        W.point(K_BODY, true);
-    }
-};
-
-// joint type whose constructors take an instrumented element BY VALUE: the copy / move / conversion that initialises
-// the parameter runs inside joint_ptr::create()'s new-expression BEFORE the joint_type base is initialised, so a
-// failure there reaches the rollback with a block that holds nothing but the allocator's garbage.
-struct bv_owner;
-struct bv_snapshot // implicitly made from a bv_owner: what clone_joint's `T(joint, const T&)` call converts to
-{
-    elem        e;
-    std::size_t n;
-    bv_snapshot(const bv_owner& o);
-};
-struct bv_owner : fm::joint_type<bv_owner>
-{
-    elem                  held;
-    fm::joint_array<elem> arr;
-
-    bv_owner(fm::joint j, elem e) : fm::joint_type<bv_owner>(j), held(std::move(e)), arr(std::size_t(0), *this)
-    {
-        W.point(K_BODY, true);
-    }
-    bv_owner(fm::joint j, elem e, f_size, std::size_t n) : fm::joint_type<bv_owner>(j), held(std::move(e)), arr(n, *this)
-    {
-        W.point(K_BODY, true);
-    }
-    bv_owner(fm::joint j, bv_snapshot s) : fm::joint_type<bv_owner>(j), held(std::move(s.e)), arr(s.n, *this)
-    {
-        W.point(K_BODY, true);
-    }
-};
-inline bv_snapshot::bv_snapshot(const bv_owner& o) : e(o.held), n(o.arr.size()) {}
-
-//=== allocators ===========================================================================================//
-// instrumented RawAllocator: records every call; memory comes from malloc and is pre-filled with garbage
-struct log_alloc
-{
-    using is_stateful = std::true_type;
-
-    alog*                                 log;
-    std::map<std::uintptr_t, std::size_t> held;
-
-    explicit log_alloc(alog* l) : log(l) {}
-    log_alloc(const log_alloc&)            = delete;
-    log_alloc& operator=(const log_alloc&) = delete;
-    ~log_alloc()
-    {
-        for (auto& kv : held)
-            std::free(reinterpret_cast<void*>(kv.first));
-    }
-
-    void* raw(std::size_t bytes, std::size_t align)
-    {
-        void*       p = nullptr;
-        std::size_t a = align < sizeof(void*) ? sizeof(void*) : align;
-        if (posix_memalign(&p, a, bytes ? bytes : 1) != 0)
-            throw std::bad_alloc();
-        std::memset(p, 0xCD, bytes ? bytes : 1);
-        held[reinterpret_cast<std::uintptr_t>(p)] = bytes;
-        return p;
-    }
-    void unraw(void* p) noexcept
-    {
-        auto it = held.find(reinterpret_cast<std::uintptr_t>(p));
-        if (it == held.end())
-            return; // the oracle reports it from the log; do not corrupt the process heap
-        std::memset(p, 0xDD, it->second);
-        held.erase(it);
-        std::free(p);
-    }
-
-    void* allocate_node(std::size_t size, std::size_t alignment)
-    {
-        void* p = raw(size, alignment);
-        log->add(A_ALLOC_NODE, p, 1, size, alignment);
-        return p;
-    }
-    void* allocate_array(std::size_t count, std::size_t size, std::size_t alignment)
-    {
-        void* p = raw(count * size, alignment);
-        log->add(A_ALLOC_ARRAY, p, count, size, alignment);
-        return p;
-    }
-    void deallocate_node(void* p, std::size_t size, std::size_t alignment) noexcept
-    {
-        log->add(A_DEALLOC_NODE, p, 1, size, alignment);
-        unraw(p);
-    }
-    void deallocate_array(void* p, std::size_t count, std::size_t size, std::size_t alignment) noexcept
-    {
-        log->add(A_DEALLOC_ARRAY, p, count, size, alignment);
-        unraw(p);
-    }
-};
-
-// tracker for the library's tracked_allocator: turns the tracking events of a real allocator into the same log
-struct log_tracker
-{
-    alog* log;
-
-    void on_node_allocation(void* p, std::size_t size, std::size_t align) noexcept
-    {
-        log->add(A_ALLOC_NODE, p, 1, size, align);
-    }
-    void on_array_allocation(void* p, std::size_t count, std::size_t size, std::size_t align) noexcept
-    {
-        log->add(A_ALLOC_ARRAY, p, count, size, align);
-    }
-    void on_node_deallocation(void* p, std::size_t size, std::size_t align) noexcept
-    {
-        log->add(A_DEALLOC_NODE, p, 1, size, align);
-    }
-    void on_array_deallocation(void* p, std::size_t count, std::size_t size, std::size_t align) noexcept
-    {
-        log->add(A_DEALLOC_ARRAY, p, count, size, align);
-    }
-    void on_allocator_growth(void*, std::size_t) noexcept {}
-    void on_allocator_shrinking(void*, std::size_t) noexcept {}
-};
-
-struct fix_log
-{
-    using alloc_type = log_alloc;
-    alog       log;
-    log_alloc  a{&log};
-    alloc_type& alloc()
-    {
-        return a;
-    }
-    static constexpr bool any_ok = true;
-};
-
-// memory_pool<node_pool>; node / block size are selected at run time ("pool": 512-byte nodes, every request fits
-// one node; "pool16": 16-byte nodes, arrays span n nodes)
-static std::size_t g_pool_node = 512, g_pool_block = 16384;
-struct fix_pool
-{
-    using alloc_type = fm::tracked_allocator<log_tracker, fm::memory_pool<>>;
-    alog       log;
-    alloc_type a;
-    fix_pool() : a(log_tracker{&log}, fm::memory_pool<>(g_pool_node, g_pool_block)) {}
-    alloc_type& alloc()
-    {
-        return a;
-    }
-    static constexpr bool any_ok = true;
-};
-
-struct fix_stack
-{
-    using alloc_type = fm::tracked_allocator<log_tracker, fm::memory_stack<>>;
-    alog       log;
-    alloc_type a;
-    fix_stack() : a(log_tracker{&log}, fm::memory_stack<>(8192)) {}
-    alloc_type& alloc()
-    {
-        return a;
-    }
-    static constexpr bool any_ok = true;
-};
-
-struct fix_heap
-{
-    using alloc_type = fm::tracked_allocator<log_tracker, fm::heap_allocator>;
-    alog       log;
-    alloc_type a;
-    fix_heap() : a(log_tracker{&log}, fm::heap_allocator{}) {}
-    alloc_type& alloc()
-    {
-        return a;
-    }
-    // tracked_allocator<_, heap_allocator> declares try_* members although heap_allocator is not composable,
-    // so binding it to a type-erased reference does not compile (not part of this property)
-    static constexpr bool any_ok = false;
-};
-
-// sources: elements / ints the helpers copy or move from, and an allocator for source joint objects
-struct src_env
-{
-    alog              log;
-    log_alloc         alloc{&log};
-    std::vector<elem>    elems;
-    std::vector<int>     ints;
-    std::vector<elem_mc> mc; // one source each for the value-category helpers
-    std::vector<elem_cm> cm;
-    void                 fill(int n)
-    {
-        mc.reserve(1);
-        cm.reserve(1);
-        mc.emplace_back(300);
-        cm.emplace_back(301);
-        elems.reserve(std::size_t(n));
-        for (int i = 0; i != n; ++i)
-        {
-            elems.emplace_back(100 + i);
-            ints.push_back(200 + i);
-        }
-    }
-};
-
-//=== cases ================================================================================================//
-struct case_id
-{
-    std::string alloc, helper;
-    int         n = 0, k = 0, slack = 0;
-    std::string json() const
-    {
-        return jobj().str("alloc", alloc).str("helper", helper).num("n", n).num("k", k).num("slack", slack).done();
-    }
-};
-
-struct verdict
-{
-    std::vector<issue>       v;
-    std::vector<std::string> trace;     // rendered logs (verbose / samples)
-    bool                     nontrivial = false;
-    std::string              outcome;   // success | rollback | other
-    void                     add(const std::string& tag, const std::string& detail)
-    {
-        v.push_back({tag, detail});
-    }
-};
-
-static bool  g_verbose = false;
-static long  g_obs_top_restored = 0, g_obs_top_not_restored = 0;
-static long  g_obs_any_n1_node = 0, g_obs_any_n1_array = 0;
-
-static void render_logs(verdict& v, const alog& l)
-{
-    std::uintptr_t abase = l.ev.empty() ? 0 : l.ev[0].addr;
-    std::uintptr_t ebase = 0;
-    for (std::size_t i = W.ev_mark; i < W.ev.size(); ++i)
-        if (W.ev[i].serial >= W.first_target || W.ev[i].serial == 0)
-        {
-            if (!ebase || W.ev[i].addr < ebase)
-                ebase = W.ev[i].addr;
-        }
-    for (std::size_t i = 0; i != l.ev.size(); ++i)
-        v.trace.push_back(fmt("alloc#%zu%s %s", i, i >= W.log_mark ? "*" : " ", render(l.ev[i], abase).c_str()));
-    for (std::size_t i = 0; i != W.ev.size(); ++i)
-    {
-        const eev&  e      = W.ev[i];
-        bool        target = e.serial >= W.first_target || e.serial == 0;
-        std::string where;
-        for (std::size_t j = 0; j != l.ev.size() && where.empty(); ++j)
-            if (l.ev[j].op <= A_ALLOC_ARRAY && e.addr >= l.ev[j].addr
-                && e.addr < l.ev[j].addr + (l.ev[j].count * l.ev[j].size ? l.ev[j].count * l.ev[j].size : 1))
-                where = fmt("block(alloc#%zu)+%lld", j, (long long)(e.addr - l.ev[j].addr));
-        if (where.empty())
-            where = target ? fmt("outside-blocks, target%+lld", (long long)(e.addr - ebase)) : std::string("elsewhere");
-        v.trace.push_back(fmt("elem#%zu%s %s object#%u @%s%s", i, i >= W.ev_mark ? "*" : " ", okind_name(e.kind),
-                              e.serial, where.c_str(), target ? " (target)" : " (source)"));
-    }
-}
-
-// The generic driver. `prep` builds (unarmed) whatever the helper needs and returns a context object; `create`
-// calls W.go() immediately before the library call under test and returns a movable owner with reset().
-// The type dependent parts are passed type-erased so that this (large) function is compiled once.
-struct core_io
-{
-    alog* log;     // call log of the allocator under test
-    alog* src_log; // call log of the allocator holding source objects
-    void* self;
-    void* (*prep)(void* self);              // builds the context (unarmed), heap allocated
-    void (*ctx_free)(void* ctx);
-    void* (*create)(void* self, void* ctx); // the armed call; returns the created owner, heap allocated
-    void (*release)(void* obj);             // owner.reset()
-    void (*obj_free)(void* obj);
-    void (*followup)(void* self, verdict&); // follow-up allocations on the same allocator
-};
-
-// temps: by-value constructor parameters of the joint type (constructed first inside the window, outside the block,
-// destroyed at the end of the creating expression)
-static void drive_core(const case_id& c, verdict& v, int expect_allocs, int points, int expect_elems, int temps,
-                       core_io& io)
-{
-    const unsigned tag = 0xC2000000u + unsigned(c.n) * 256u + unsigned(c.k);
-    alog&          flog = *io.log;
-    std::size_t    reported = 0;
-    {
-        W.watched = &flog;
-        {
-            void*     ctx  = io.prep(io.self);
-            log_state base = analyse(flog);
-            for (auto& i : base.issues)
-                v.add("prep-" + i.tag, i.detail);
-            W.prepare(c.k, tag);
-            W.go(); // default marks in case the helper throws before it reaches go()
-            W.armed    = false;
-            bool threw = false;
-            try
-            {
-                void* obj = io.create(io.self, ctx);
-                struct obj_guard
-                {
-                    core_io& io;
-                    void*    o;
-                    ~obj_guard()
-                    {
-                        io.obj_free(o);
-                    }
-                } guard{io, obj};
-                W.disarm();
-                v.outcome = "success";
-                //--- success: each element constructed once
-                if (c.k != 0)
-                    v.add("fault-not-reached",
-                          fmt("failure injected at construction %d but only %d constructions happened and no "
-                              "exception arrived",
-                              c.k, W.ops));
-                if (W.ops != points)
-                    v.add("success-op-count", fmt("%d construction steps observed, %d expected", W.ops, points));
-                int ctors = W.window_count(true), dtors = W.window_count(false);
-                // scoped helpers (temps == -1) create AND release the object inside the armed call
-                const bool scoped   = temps < 0;
-                const int  ntemps   = scoped ? 0 : temps;
-                const int  early    = scoped ? expect_elems : ntemps;
-                const int  live_exp = scoped ? 0 : expect_elems;
-                const int  held_exp = scoped ? 0 : expect_allocs;
-                if (ctors != expect_elems + ntemps)
-                    v.add("success-ctor-count",
-                          fmt("%d elements constructed, exactly %d expected", ctors, expect_elems + ntemps));
-                if (dtors != early)
-                    v.add("success-early-dtor",
-                          fmt("%d element destructions during creation, %d expected", dtors, early));
-                if (W.live_targets() != live_exp)
-                    v.add("success-live-count",
-                          fmt("%d elements alive after creation, %d expected", W.live_targets(), live_exp));
-                log_state mid  = analyse(flog);
-                int       nall = 0;
-                for (std::size_t i = W.log_mark; i < flog.ev.size(); ++i)
-                    if (flog.ev[i].op <= A_ALLOC_ARRAY)
-                        ++nall;
-                if (nall != expect_allocs)
-                    v.add("success-alloc-count", fmt("%d allocations during creation, %d expected", nall,
-                                                     expect_allocs));
-                if (mid.outstanding.size() != base.outstanding.size() + std::size_t(held_exp))
-                    v.add("success-outstanding",
-                          fmt("%zu blocks outstanding after creation, %zu expected", mid.outstanding.size(),
-                              base.outstanding.size() + std::size_t(held_exp)));
-                // every target element lies inside a block handed out for it
-                for (auto& kv : W.live)
-                    if (kv.second >= W.first_target)
-                    {
-                        bool inside = false;
-                        for (auto& o : mid.outstanding)
-                            if (kv.first >= o.first
-                                && kv.first + sizeof(elem) <= o.first + o.second.count * o.second.size)
-                                inside = true;
-                        if (!inside)
-                            v.add("elem-outside-block",
-                                  fmt("object #%u lies outside every block obtained from the allocator", kv.second));
-                    }
-                if (c.helper.find("_any") != std::string::npos && c.helper.find("array") != std::string::npos
-                    && c.n == 1 && flog.ev.size() > W.log_mark)
-                    (flog.ev[W.log_mark].op == A_ALLOC_NODE ? g_obs_any_n1_node : g_obs_any_n1_array)++;
-                //--- later: destroyed once, memory released once with matching parameters
-                io.release(obj);
-                dtors = W.window_count(false) - ntemps;
-                if (dtors != expect_elems)
-                    v.add("success-dtor-count",
-                          fmt("%d element destructions after release, exactly %d expected", dtors, expect_elems));
-                if (W.live_targets() != 0)
-                    v.add("elem-leaked", fmt("%d elements still alive after the owner was released",
-                                             W.live_targets()));
-            }
-            catch (injected& e)
-            {
-                W.disarm();
-                threw     = true;
-                v.outcome = "rollback";
-                //--- the exception is the injected object and arrived unchanged
-                if (c.k == 0)
-                    v.add("exception-unexpected", "an injected exception arrived although no failure was armed");
-                if (e.tag != tag || typeid(e) != typeid(injected_derived)
-                    || static_cast<injected_derived&>(e).tag2 != ~tag)
-                    v.add("exception-changed", fmt("caught exception carries tag %08x / dynamic type %s, injected "
-                                                   "was %08x / injected_derived",
-                                                   e.tag, typeid(e).name(), tag));
-                else if (static_cast<const void*>(&e) != W.thrown_addr || W.injected_copies != 0
-                         || W.injected_made != 1)
-                    v.add("exception-changed",
-                          fmt("the caught exception is not the thrown object (%d copies made, %d objects created)",
-                              W.injected_copies, W.injected_made));
-            }
-            catch (std::exception& e)
-            {
-                W.disarm();
-                v.outcome = "other-exception";
-                v.add(c.k ? "exception-changed" : "exception-unexpected",
-                      fmt("a different exception arrived: %s", e.what()));
-            }
-            catch (...)
-            {
-                W.disarm();
-                v.outcome = "other-exception";
-                v.add(c.k ? "exception-changed" : "exception-unexpected", "a different exception arrived");
-            }
-            if (threw)
-            {
-                //--- rollback: live count of target elements zero, memory released with matching parameters
-                if (W.ops != c.k)
-                    v.add("harness-op-count", fmt("threw at op %d, armed %d", W.ops, c.k));
-                if (W.live_targets() != 0)
-                    v.add("elem-leaked", fmt("%d of %d constructed elements were not destroyed after the throw",
-                                             W.live_targets(), W.window_count(true)));
-                log_state after = analyse(flog);
-                if (after.outstanding.size() > base.outstanding.size())
-                {
-                    for (auto& o : after.outstanding)
-                        if (!base.outstanding.count(o.first))
-                            v.add("alloc-leak",
-                                  fmt("%s was not released after the constructor threw",
-                                      render(o.second, flog.ev[0].addr).c_str()));
-                }
-                else if (after.outstanding.size() < base.outstanding.size())
-                    v.add("alloc-released-foreign", "a block that existed before the call was released");
-                // constructed elements were inside a block obtained in the window (or held before)
-                int skip = temps > 0 ? temps : 0; // constructor parameters live on the caller's stack
-                for (std::size_t i = W.ev_mark; i < W.ev.size(); ++i)
-                {
-                    const eev& e = W.ev[i];
-                    if (e.kind == K_DTOR || e.serial < W.first_target)
-                        continue;
-                    if (skip > 0)
-                    {
-                        --skip;
-                        continue;
-                    }
-                    bool inside = false;
-                    for (auto& o : base.outstanding)
-                        if (e.addr >= o.first && e.addr + sizeof(elem) <= o.first + o.second.count * o.second.size)
-                            inside = true;
-                    for (std::size_t j = W.log_mark; j < flog.ev.size(); ++j)
-                    {
-                        const aev& o = flog.ev[j];
-                        if (o.op <= A_ALLOC_ARRAY && e.addr >= o.addr
-                            && e.addr + sizeof(elem) <= o.addr + o.count * o.size)
-                            inside = true;
-                    }
-                    if (!inside)
-                        v.add("elem-outside-block",
-                              fmt("object #%u was constructed outside every block obtained from the allocator",
-                                  e.serial));
-                }
-            }
-            //--- allocator log and per-object log after the call (both paths)
-            log_state fin = analyse(flog);
-            for (auto& i : fin.issues)
-                v.add(i.tag, i.detail);
-            if (!threw && v.outcome == "success" && fin.outstanding.size() != base.outstanding.size())
-                v.add("alloc-leak", fmt("%zu blocks outstanding after the owner was released, %zu before the call",
-                                        fin.outstanding.size(), base.outstanding.size()));
-            for (auto& a : W.anomalies)
-                v.add(a.tag, a.detail);
-            W.anomalies.clear();
-            v.nontrivial = W.ops > 0 || flog.ev.size() > W.log_mark;
-            if (g_verbose || !v.v.empty())
-                render_logs(v, flog);
-            //--- the allocator remains usable
-            io.followup(io.self, v);
-            reported = fin.issues.size();
-            io.ctx_free(ctx);
-        } // ctx (hosts, source joint objects) destroyed
-        log_state end = analyse(flog);
-        for (std::size_t i = reported; i < end.issues.size(); ++i)
-            v.add("teardown-" + end.issues[i].tag, end.issues[i].detail);
-        if (!end.outstanding.empty())
-            v.add("alloc-leak", fmt("%zu blocks still outstanding at the end of the case", end.outstanding.size()));
-        log_state send = analyse(*io.src_log);
-        if (!send.outstanding.empty() || !send.issues.empty())
-            v.add("source-alloc-unbalanced", "the source allocator's log does not balance");
-        W.watched = nullptr;
-    }
-}
-
-static void drive_post(verdict& v)
-{
-    for (auto& a : W.anomalies)
-        v.add("teardown-" + a.tag, a.detail);
-    if (!W.live.empty())
-        v.add("elem-leaked", fmt("%zu elements alive at the end of the case", W.live.size()));
-    for (auto& r : W.lib_reports)
-        v.add(r.tag, r.detail);
-}
-
-
-template <class Fix>
-static void followup_allocs(Fix& fix, verdict& v)
-{
-    try
-    {
-        using traits = fm::allocator_traits<typename Fix::alloc_type>;
-        std::size_t ev0 = fix.log.ev.size();
-        void*       p   = traits::allocate_node(fix.alloc(), sizeof(elem), alignof(elem));
-        if (!p)
-            v.add("allocator-unusable", "follow-up allocation returned null");
-        else
-        {
-            std::memset(p, 0x5A, sizeof(elem));
-            traits::deallocate_node(fix.alloc(), p, sizeof(elem), alignof(elem));
-        }
-        void* q = traits::allocate_array(fix.alloc(), 2, sizeof(elem), alignof(elem));
-        if (!q)
-            v.add("allocator-unusable", "follow-up array allocation returned null");
-        else
-        {
-            std::memset(q, 0x5A, 2 * sizeof(elem));
-            traits::deallocate_array(fix.alloc(), q, 2, sizeof(elem), alignof(elem));
-        }
-        (void)ev0;
-    }
-    catch (std::exception& e)
-    {
-        v.add("allocator-unusable", fmt("follow-up allocation threw: %s", e.what()));
-    }
-    catch (...)
-    {
-        v.add("allocator-unusable", "follow-up allocation threw");
-    }
-}
-
-// type dependent thunks: P::prep builds the context, H::create performs the armed library call
-template <class Fix, class P, class H>
-struct thunks
-{
-    using A = typename Fix::alloc_type;
-    struct self_t
-    {
-        Fix*           fix;
-        src_env*       src;
-        const case_id* c;
-    };
-    using Ctx = decltype(P::prep(std::declval<A&>(), std::declval<src_env&>(), std::declval<const case_id&>()));
-    using Obj = decltype(H::create(std::declval<A&>(), std::declval<src_env&>(), std::declval<Ctx&>(),
-                                   std::declval<const case_id&>()));
-
-    static void* prep(void* s)
-    {
-        auto& x = *static_cast<self_t*>(s);
-        return new Ctx(P::prep(x.fix->alloc(), *x.src, *x.c));
-    }
-    static void ctx_free(void* p)
-    {
-        delete static_cast<Ctx*>(p);
-    }
-    static void* create(void* s, void* ctx)
-    {
-        auto& x = *static_cast<self_t*>(s);
-        return new Obj(H::create(x.fix->alloc(), *x.src, *static_cast<Ctx*>(ctx), *x.c));
-    }
-    static void release(void* o)
-    {
-        static_cast<Obj*>(o)->reset();
-    }
-    static void obj_free(void* o)
-    {
-        delete static_cast<Obj*>(o);
-    }
-    static void followup(void* s, verdict& v)
-    {
-        followup_allocs(*static_cast<self_t*>(s)->fix, v);
-    }
-    static void run(const case_id& c, verdict& v, int expect_allocs, int points, int expect_elems, int temps = 0)
-    {
-        W.reset();
-        {
-            Fix     fix;
-            src_env src;
-            self_t  self{&fix, &src, &c};
-            core_io io{&fix.log, &src.log, &self, &prep, &ctx_free, &create, &release, &obj_free, &followup};
-            drive_core(c, v, expect_allocs, points, expect_elems, temps, io);
-        } // sources and fixture destroyed (pool / stack destructors run their leak check)
-        drive_post(v);
-    }
-};
-
-//=== helper table =========================================================================================//
-struct helper_entry
-{
-    std::string name;
-    int         nmin, nmax;
-    bool        throwing;           // false: only the success run exists
-    int (*points)(int n);           // countable construction steps on success
-    std::size_t (*need)(int n, int slack); // largest node size requested
-    void (*run)(const case_id&, verdict&);
-    bool uses_slack;
-};
-
-static std::size_t joint_cap(const case_id& c)
-{
-    return std::size_t(c.n) * sizeof(elem) + std::size_t(c.slack);
-}
-
-// initializer_list of run-time length: one instantiation per length
-template <std::size_t... I, class F>
-static auto with_ilist_impl(const std::vector<elem>& s, std::index_sequence<I...>, F&& f)
-{
-    std::initializer_list<elem> il = {s[I]...}; // copies happen before the armed window (f calls W.go())
-    return f(il);
-}
-template <class F>
-static auto with_ilist(const std::vector<elem>& s, F&& f)
-{
-#define VERIF_IL(N)                                                                                                \
-    case N:                                                                                                        \
-        return with_ilist_impl(s, std::make_index_sequence<N>{}, f);
-    switch (s.size())
-    {
-        VERIF_IL(0)
-        VERIF_IL(1)
-        VERIF_IL(2)
-        VERIF_IL(3)
-        VERIF_IL(4)
-        VERIF_IL(5)
-        VERIF_IL(6)
-        VERIF_IL(7)
-        VERIF_IL(8)
-        VERIF_IL(9)
-        VERIF_IL(10)
-        VERIF_IL(11)
-        VERIF_IL(12)
-        VERIF_IL(13)
-        VERIF_IL(14)
-        VERIF_IL(15)
-    default:
-        return with_ilist_impl(s, std::make_index_sequence<16>{}, f);
-    }
-#undef VERIF_IL
-}
-
-// contexts
-struct no_ctx
-{
-};
-struct src_ctx // copy / move forms and clone_joint need a source joint object (lives on the source allocator)
-{
-    fm::joint_ptr<owner, log_alloc> src;
-};
-template <class A>
-struct host_ctx // stand-alone joint_array: host joint object on the allocator under test + a source joint object
-{
-    fm::joint_ptr<owner, A>         host;
-    fm::joint_ptr<owner, log_alloc> src;
-    char*                           top0;
-};
-template <class A>
-struct prep_src
-{
-    static no_ctx prep(A&, src_env& s, const case_id& c)
-    {
-        s.fill(c.n);
-        return no_ctx{};
-    }
-};
-struct bv_ctx // source joint object with a by-value constructor (for clone_joint)
-{
-    fm::joint_ptr<bv_owner, log_alloc> src;
-};
-template <class A>
-struct prep_bv_owner
-{
-    static bv_ctx prep(A&, src_env& s, const case_id& c)
-    {
-        s.fill(1);
-        return bv_ctx{fm::allocate_joint<bv_owner>(s.alloc, fm::joint_size(joint_cap(c)), std::move(s.elems[0]),
-                                                   f_size{}, std::size_t(c.n))};
-    }
-};
-template <class A>
-struct prep_src1 // at least one source element
-{
-    static no_ctx prep(A&, src_env& s, const case_id& c)
-    {
-        s.fill(c.n > 1 ? c.n : 1);
-        return no_ctx{};
-    }
-};
-template <class A>
-struct prep_owner
-{
-    static src_ctx prep(A&, src_env& s, const case_id& c)
-    {
-        return src_ctx{fm::allocate_joint<owner>(s.alloc, fm::joint_size(joint_cap(c)), f_size{}, std::size_t(c.n))};
-    }
-};
-template <class A>
-struct prep_host
-{
-    static host_ctx<A> prep(A& a, src_env& s, const case_id& c)
-    {
-        s.fill(c.n);
-        host_ctx<A> x{fm::allocate_joint<owner>(a, fm::joint_size(joint_cap(c)), f_size{}, std::size_t(0)),
-                      fm::allocate_joint<owner>(s.alloc, fm::joint_size(joint_cap(c)), f_size{}, std::size_t(c.n)),
-                      nullptr};
-        x.top0 = fm::detail::get_stack(*x.host).top();
-        return x;
-    }
-};
-// observation only: is the joint stack's top restored when a stand-alone joint_array constructor throws?
-template <class A>
-struct top_obs
-{
-    host_ctx<A>& x;
-    int          exc = std::uncaught_exceptions();
-    ~top_obs()
-    {
-        if (std::uncaught_exceptions() > exc)
-            (fm::detail::get_stack(*x.host).top() == x.top0 ? g_obs_top_restored : g_obs_top_not_restored)++;
-    }
-};
-
-static int pts_one(int)
-{
-    return 1;
-}
-static int pts_n(int n)
-{
-    return n;
-}
-static int pts_n1(int n)
-{
-    return n + 1;
-}
-static std::size_t need_elem(int, int)
-{
-    return sizeof(elem);
-}
-static std::size_t need_shared(int, int)
-{
-    return 128; // control block + element (over-approximation)
-}
-static int pts_n3(int n)
-{
-    return n + 3; // parameter, member initialised from it, n array elements, constructor body
-}
-static std::size_t need_joint_bv(int n, int slack)
-{
-    return sizeof(bv_owner) + std::size_t(n) * sizeof(elem) + std::size_t(slack);
-}
-static std::size_t need_joint(int n, int slack)
-{
-    return sizeof(owner) + std::size_t(n) * sizeof(elem) + std::size_t(slack);
-}
-
-// one helper = a local struct with the armed call; the body must call W.go() right before the library call
-#define HELPER(NAME, NMIN, NMAX, THROWING, POINTS, NEED, SLACK, PREP, CTX, EA, PTS, EE, ...)                       \
-    HELPER_T(NAME, NMIN, NMAX, THROWING, POINTS, NEED, SLACK, PREP, CTX, EA, PTS, EE, 0, __VA_ARGS__)
-#define HELPER_T(NAME, NMIN, NMAX, THROWING, POINTS, NEED, SLACK, PREP, CTX, EA, PTS, EE, TEMPS, ...)              \
-    {                                                                                                              \
-        struct H                                                                                                   \
-        {                                                                                                          \
-            static auto create(A& a, src_env& s, CTX& x, const case_id& c)                                         \
-            {                                                                                                      \
-                const std::size_t n = std::size_t(c.n);                                                            \
-                (void)n;                                                                                           \
-                __VA_ARGS__                                                                                        \
-            }                                                                                                      \
-            static void run(const case_id& c, verdict& v)                                                          \
-            {                                                                                                      \
-                thunks<Fix, PREP, H>::run(c, v, EA, PTS, EE, TEMPS);                                                     \
-            }                                                                                                      \
-        };                                                                                                         \
-        out.push_back({NAME, NMIN, NMAX, THROWING, POINTS, NEED, &H::run, SLACK});                                 \
-    }
-// single objects: one construction
-#define SINGLE(NAME, NEED, ...)                                                                                    \
-    HELPER(NAME, 1, 1, true, pts_one, NEED, false, prep_src<A>, no_ctx, 1, 1, 1, W.go(); return __VA_ARGS__;)
-// single objects, argument value categories; THROWING = the constructor that actually runs can throw
-#define SINGLE_VC(NAME, THROWING, NEED, ...)                                                                       \
-    HELPER(NAME, 1, 1, THROWING, pts_one, NEED, false, prep_src<A>, no_ctx, 1, 1, 1, W.go(); return __VA_ARGS__;)
-// arrays through allocate_unique<T[]>
-#define ARRAY(NAME, THROWING, ...)                                                                                 \
-    HELPER(NAME, 0, 16, THROWING, pts_n, need_elem, false, prep_src<A>, no_ctx, 1, c.n, c.n, W.go();               \
-           return __VA_ARGS__;)
-// joint objects: n element constructions + the body of the joint type's constructor
-#define JOINT(NAME, ...)                                                                                           \
-    HELPER(NAME, 0, 16, true, pts_n1, need_joint, true, prep_src<A>, no_ctx, 1, c.n + 1, c.n, __VA_ARGS__)
-#define JOINT2(NAME, ...)                                                                                          \
-    HELPER(NAME, 0, 16, true, pts_n1, need_joint, true, prep_owner<A>, src_ctx, 1, c.n + 1, c.n, W.go();           \
-           return __VA_ARGS__;)
-// joint objects whose constructor takes an element by value: points = parameter + member initialised from it + n array
-// elements + body; n + 1 elements stay alive (member + array), one temporary (the parameter)
-#define JOINT_BV(NAME, NMIN, NMAX, PREP, CTX, ...)                                                                 \
-    HELPER_T(NAME, NMIN, NMAX, true, pts_n3, need_joint_bv, true, PREP, CTX, 1, c.n + 3, c.n + 1, 1, W.go();       \
-             return __VA_ARGS__;)
-// scoped: creation and release (joint_ptr destructor -> reset()) inside one function, as user code does; with
-// optimisation the compiler sees construction, destruction and the release in one scope
-struct scoped_done
-{
-    void reset() noexcept {}
-};
-#define JOINT_SCOPED(NAME, ...)                                                                                    \
-    HELPER_T(NAME, 0, 16, true, pts_n1, need_joint, true, prep_src<A>, no_ctx, 1, c.n + 1, c.n, -1, W.go(); {      \
-        auto p = __VA_ARGS__;                                                                                      \
-        (void)p;                                                                                                   \
-    } return scoped_done{};)
-// stand-alone joint_array over an existing joint object: memory of the host, no allocator call expected
-#define JARR(NAME, ...)                                                                                            \
-    HELPER(NAME, 0, 16, true, pts_n, need_joint, true, prep_host<A>, host_ctx<A>, 0, c.n, c.n, top_obs<A> obs{x};  \
-           __VA_ARGS__)
-
-template <class Fix>
-static void add_helpers(std::vector<helper_entry>& out)
-{
-    using A        = typename Fix::alloc_type;
-    using jarray_t = fm::joint_array<elem>;
-
-    //--- single objects: allocate_unique<T>(alloc, args...), type-erased variant, allocate_shared --------
-    SINGLE("unique.default", need_elem, fm::allocate_unique<elem>(a))
-    SINGLE("unique.value", need_elem, fm::allocate_unique<elem>(a, 7))
-    SINGLE("unique.copy", need_elem, fm::allocate_unique<elem>(a, static_cast<const elem&>(s.elems[0])))
-    SINGLE("unique.move", need_elem, fm::allocate_unique<elem>(a, std::move(s.elems[0])))
-    if constexpr (Fix::any_ok)
-    {
-        SINGLE("unique_any.default", need_elem, fm::allocate_unique<elem>(fm::any_allocator{}, a))
-        SINGLE("unique_any.value", need_elem, fm::allocate_unique<elem>(fm::any_allocator{}, a, 7))
-        SINGLE("unique_any.copy", need_elem,
-               fm::allocate_unique<elem>(fm::any_allocator{}, a, static_cast<const elem&>(s.elems[0])))
-        SINGLE("unique_any.move", need_elem,
-               fm::allocate_unique<elem>(fm::any_allocator{}, a, std::move(s.elems[0])))
-    }
-    SINGLE("shared.default", need_shared, fm::allocate_shared<elem>(a))
-    SINGLE("shared.value", need_shared, fm::allocate_shared<elem>(a, 7))
-    SINGLE("shared.copy", need_shared, fm::allocate_shared<elem>(a, static_cast<const elem&>(s.elems[0])))
-    SINGLE("shared.move", need_shared, fm::allocate_shared<elem>(a, std::move(s.elems[0])))
-
-    //--- argument value categories x mixed exception specifications (lvalue / const lvalue run the copy ctor,
-    //    rvalue runs the move ctor; the failure is injected into the constructor that runs, if it can throw) ----
-#define VALUE_CATEGORIES(PFX, NEED, CALL_MC, CALL_CM)                                                              \
-    SINGLE_VC(PFX ".mc.lvalue", true, NEED, CALL_MC(s.mc[0]))                                                      \
-    SINGLE_VC(PFX ".mc.const_lvalue", true, NEED, CALL_MC(static_cast<const elem_mc&>(s.mc[0])))                   \
-    SINGLE_VC(PFX ".mc.rvalue", false, NEED, CALL_MC(std::move(s.mc[0])))                                          \
-    SINGLE_VC(PFX ".cm.lvalue", false, NEED, CALL_CM(s.cm[0]))                                                     \
-    SINGLE_VC(PFX ".cm.const_lvalue", false, NEED, CALL_CM(static_cast<const elem_cm&>(s.cm[0])))                  \
-    SINGLE_VC(PFX ".cm.rvalue", true, NEED, CALL_CM(std::move(s.cm[0])))
-#define U_MC(ARG) fm::allocate_unique<elem_mc>(a, ARG)
-#define U_CM(ARG) fm::allocate_unique<elem_cm>(a, ARG)
-#define UA_MC(ARG) fm::allocate_unique<elem_mc>(fm::any_allocator{}, a, ARG)
-#define UA_CM(ARG) fm::allocate_unique<elem_cm>(fm::any_allocator{}, a, ARG)
-#define S_MC(ARG) fm::allocate_shared<elem_mc>(a, ARG)
-#define S_CM(ARG) fm::allocate_shared<elem_cm>(a, ARG)
-    VALUE_CATEGORIES("unique", need_elem, U_MC, U_CM)
-    if constexpr (Fix::any_ok)
-    {
-        VALUE_CATEGORIES("unique_any", need_elem, UA_MC, UA_CM)
-    }
-    VALUE_CATEGORIES("shared", need_shared, S_MC, S_CM)
-#undef U_MC
-#undef U_CM
-#undef UA_MC
-#undef UA_CM
-#undef S_MC
-#undef S_CM
-#undef VALUE_CATEGORIES
-
-    //--- arrays: allocate_unique<T[]>(alloc, n) ----------------------------------------------------------
-    ARRAY("unique_array", true, fm::allocate_unique<elem[]>(a, n))
-    ARRAY("unique_array_noexcept", false, fm::allocate_unique<elem_nx[]>(a, n))
-    if constexpr (Fix::any_ok)
-    {
-        ARRAY("unique_array_any", true, fm::allocate_unique<elem[]>(fm::any_allocator{}, a, n))
-        ARRAY("unique_array_any_noexcept", false, fm::allocate_unique<elem_nx[]>(fm::any_allocator{}, a, n))
-    }
-
-    //--- joint objects: allocate_joint / joint_ptr constructor with every joint_array constructor form ----
-    JOINT("joint.size", W.go(); return fm::allocate_joint<owner>(a, fm::joint_size(joint_cap(c)), f_size{}, n);)
-    JOINT("joint_ptr_ctor.size", W.go();
-          return fm::joint_ptr<owner, A>(a, fm::joint_size(joint_cap(c)), f_size{}, n);)
-    JOINT("joint.size_value", const elem proto(55); W.go();
-          return fm::allocate_joint<owner>(a, fm::joint_size(joint_cap(c)), f_size_value{}, n, proto);)
-    JOINT("joint.ilist", return with_ilist(s.elems, [&](std::initializer_list<elem> il) {
-              W.go();
-              return fm::allocate_joint<owner>(a, fm::joint_size(joint_cap(c)), f_ilist{}, il);
-          });)
-    JOINT("joint.range_copy", const elem* b = s.elems.data(); W.go();
-          return fm::allocate_joint<owner>(a, fm::joint_size(joint_cap(c)), f_range{}, b, b + n);)
-    JOINT("joint.range_value", int* b = s.ints.data(); W.go();
-          return fm::allocate_joint<owner>(a, fm::joint_size(joint_cap(c)), f_range{}, b, b + n);)
-    JOINT("joint.range_move", auto b = std::make_move_iterator(s.elems.data()); W.go();
-          return fm::allocate_joint<owner>(a, fm::joint_size(joint_cap(c)), f_range{}, b, b + std::ptrdiff_t(n));)
-    JOINT2("joint.copy",
-           fm::allocate_joint<owner>(a, fm::joint_size(joint_cap(c)), static_cast<const owner&>(*x.src)))
-    JOINT2("joint.move", fm::allocate_joint<owner>(a, fm::joint_size(joint_cap(c)), std::move(*x.src)))
-    JOINT2("clone_joint", fm::clone_joint(a, *x.src))
-
-    JOINT_SCOPED("joint_scoped.size", fm::allocate_joint<owner>(a, fm::joint_size(joint_cap(c)), f_size{}, n))
-    JOINT_SCOPED("joint_scoped.size_value",
-                 fm::allocate_joint<owner>(a, fm::joint_size(joint_cap(c)), f_size_value{}, n, s.elems.empty() ? elem(1) : s.elems[0]))
-
-    //--- by-value constructor parameters: failure point BEFORE the joint_type base exists (k = 1) -------------
-    JOINT_BV("joint_byvalue.lvalue", 0, 0, prep_src1<A>, no_ctx,
-             fm::allocate_joint<bv_owner>(a, fm::joint_size(joint_cap(c)), s.elems[0]))
-    JOINT_BV("joint_byvalue.const_lvalue", 0, 0, prep_src1<A>, no_ctx,
-             fm::allocate_joint<bv_owner>(a, fm::joint_size(joint_cap(c)), static_cast<const elem&>(s.elems[0])))
-    JOINT_BV("joint_byvalue.rvalue", 0, 0, prep_src1<A>, no_ctx,
-             fm::allocate_joint<bv_owner>(a, fm::joint_size(joint_cap(c)), std::move(s.elems[0])))
-    JOINT_BV("joint_byvalue_more.lvalue", 0, 16, prep_src1<A>, no_ctx,
-             fm::allocate_joint<bv_owner>(a, fm::joint_size(joint_cap(c)), s.elems[0], f_size{}, n))
-    JOINT_BV("joint_byvalue_more.rvalue", 0, 16, prep_src1<A>, no_ctx,
-             fm::allocate_joint<bv_owner>(a, fm::joint_size(joint_cap(c)), std::move(s.elems[0]), f_size{}, n))
-    JOINT_BV("joint_ptr_ctor_byvalue_more.lvalue", 0, 16, prep_src1<A>, no_ctx,
-             fm::joint_ptr<bv_owner, A>(a, fm::joint_size(joint_cap(c)), s.elems[0], f_size{}, n))
-    JOINT_BV("clone_joint_byvalue", 0, 16, prep_bv_owner<A>, bv_ctx, fm::clone_joint(a, *x.src))
-
-    //--- stand-alone joint_array built over an existing joint object ---------------------------------------
-    JARR("jarr.size", W.go(); return std::make_unique<jarray_t>(n, *x.host);)
-    JARR("jarr.size_value", const elem proto(55); W.go(); return std::make_unique<jarray_t>(n, proto, *x.host);)
-    JARR("jarr.ilist", return with_ilist(s.elems, [&](std::initializer_list<elem> il) {
-             W.go();
-             return std::make_unique<jarray_t>(il, *x.host);
-         });)
-    JARR("jarr.range_copy", const elem* b = s.elems.data(); W.go();
-         return std::make_unique<jarray_t>(b, b + n, *x.host);)
-    JARR("jarr.range_value", int* b = s.ints.data(); W.go(); return std::make_unique<jarray_t>(b, b + n, *x.host);)
-    JARR("jarr.range_move", auto b = std::make_move_iterator(s.elems.data()); W.go();
-         return std::make_unique<jarray_t>(b, b + std::ptrdiff_t(n), *x.host);)
-    JARR("jarr.copy", W.go(); return std::make_unique<jarray_t>(static_cast<const jarray_t&>(x.src->arr), *x.host);)
-    JARR("jarr.move", W.go(); return std::make_unique<jarray_t>(std::move(x.src->arr), *x.host);)
-}
-#undef SINGLE
-#undef SINGLE_VC
-#undef ARRAY
-#undef JOINT
-#undef JOINT2
-#undef JARR
-#undef JOINT_BV
-#undef JOINT_SCOPED
-#undef HELPER_T
-#undef HELPER
-
-//=== library handlers =====================================================================================//
-static void h_leak(const fm::allocator_info& info, std::ptrdiff_t amount)
-{
-    W.lib_reports.push_back({"library-leak-report", fmt("leak handler: %s reports %lld bytes", info.name,
-                                                        (long long)amount)});
-}
-static void h_invalid(const fm::allocator_info& info, const void*)
-{
-    W.lib_reports.push_back({"library-invalid-pointer", fmt("invalid pointer handler called by %s", info.name)});
-    std::abort();
-}
-static void h_overflow(const void*, std::size_t size, const void*)
-{
-    W.lib_reports.push_back({"library-buffer-overflow", fmt("buffer overflow handler called (block size %zu)", size)});
-    std::abort();
-}
-
-//=== running ==============================================================================================//
-static bool g_isolate = false; // run every case in a forked child
-static bool g_isolate_set(const std::string& name)
-{
-    return g_isolate = name == "heap";
-}
-struct fixture_entry
-{
-    std::string               name;
-    std::size_t               max_node;
-    std::size_t               pool_node, pool_block; // only for the pool fixtures
-    std::vector<helper_entry> helpers;
-};
-static std::vector<fixture_entry> FIX;
-
-template <class Fix>
-static void add_fixture(const char* name, std::size_t max_node, std::size_t pool_node = 0, std::size_t pool_block = 0)
-{
-    fixture_entry f;
-    f.name       = name;
-    f.max_node   = max_node;
-    f.pool_node  = pool_node;
-    f.pool_block = pool_block;
-    add_helpers<Fix>(f.helpers);
-    FIX.push_back(std::move(f));
-}
-static void select_fixture(const fixture_entry& f)
-{
-    g_isolate_set(f.name);
-    if (f.pool_node)
-    {
-        g_pool_node  = f.pool_node;
-        g_pool_block = f.pool_block;
-    }
-}
-
-static int guarded_run(const helper_entry* h, const case_id* c, verdict* v)
-{
-    int out = OUT_OK;
-    VERIF_GUARDED(out, h->run(*c, *v));
-    return out;
-}
-
-// std::terminate() inside a run (e.g. an exception hitting a noexcept boundary inside the library instead of
-// propagating) is recorded and contained like an abort
-static volatile int g_terminate_calls = 0;
-static void         h_terminate()
-{
-    g_terminate_calls = g_terminate_calls + 1;
-    guard_escape(OUT_ABORTED);
-}
-
-static void run_case(const helper_entry& h, const case_id& c, verdict& v)
-{
-    int term0 = g_terminate_calls;
-    int out   = guarded_run(&h, &c, &v);
-    if (out != OUT_OK)
-    {
-        W.disarm();
-        if (g_terminate_calls != term0)
-            v.add("terminate-instead-of-exception",
-                  fmt("std::terminate() was called %d constructions into the armed window%s: the constructor's "
-                      "exception did not propagate out of the helper",
-                      W.ops, W.failing_kind >= 0 ? fmt(" (after the injected %s failure)", okind_name(W.failing_kind)).c_str() : ""));
-        else
-            v.add(std::string("run-") + outcome_name(out),
-                  fmt("the run did not return normally: %s (%d constructions into the armed window)", outcome_name(out),
-                      W.ops));
-        for (auto& r : W.lib_reports)
-            v.add(r.tag, r.detail);
-        v.outcome = outcome_name(out);
-    }
-}
-
-// Runs one case in a forked child (used for the heap fixture: a wrong release can corrupt the process heap, which
-// cannot be contained in-process). The child sends its verdict through a pipe.
-static std::string flat(std::string s)
-{
-    for (auto& ch : s)
-        if (ch == '\n' || ch == '\t')
-            ch = ' ';
-    return s;
-}
-static void run_case_isolated(const helper_entry& h, const case_id& c, verdict& v)
-{
-    int fd[2];
-    if (pipe(fd) != 0)
-    {
-        run_case(h, c, v);
-        return;
-    }
-    std::fflush(nullptr);
-    pid_t pid = fork();
-    if (pid == 0)
-    {
-        close(fd[0]);
-        verdict cv;
-        run_case(h, c, cv);
-        std::string out = "O\t" + cv.outcome + "\n" + fmt("N\t%d\t%d\n", cv.nontrivial ? 1 : 0, W.failing_kind);
-        out += fmt("B\t%ld\t%ld\t%ld\t%ld\n", g_obs_top_restored, g_obs_top_not_restored, g_obs_any_n1_node,
-                   g_obs_any_n1_array);
-        out += "K";
-        for (int i = 0; i != 6; ++i)
-            out += fmt("\t%ld", W.kinds[i]);
-        out += "\n";
-        for (auto& i : cv.v)
-            out += "V\t" + flat(i.tag) + "\t" + flat(i.detail) + "\n";
-        for (auto& l : cv.trace)
-            out += "T\t" + flat(l) + "\n";
-        out += "E\n";
-        std::size_t off = 0;
-        while (off < out.size())
-        {
-            ssize_t w = write(fd[1], out.data() + off, out.size() - off);
-            if (w <= 0)
-                break;
-            off += std::size_t(w);
-        }
-        close(fd[1]);
-        std::_Exit(0);
-    }
-    close(fd[1]);
-    std::string in;
-    char        buf[4096];
-    for (;;)
-    {
-        ssize_t r = read(fd[0], buf, sizeof buf);
-        if (r > 0)
-            in.append(buf, std::size_t(r));
-        else if (r == 0 || errno != EINTR)
-            break;
-    }
-    close(fd[0]);
-    int status = 0;
-    while (pid > 0 && waitpid(pid, &status, 0) < 0 && errno == EINTR)
-    {
-    }
-    bool complete = false;
-    long obs[4]   = {g_obs_top_restored, g_obs_top_not_restored, g_obs_any_n1_node, g_obs_any_n1_array};
-    std::size_t pos = 0;
-    while (pos < in.size())
-    {
-        std::size_t e = in.find('\n', pos);
-        if (e == std::string::npos)
-            break;
-        std::string line = in.substr(pos, e - pos);
-        pos              = e + 1;
-        if (line == "E")
-            complete = true;
-        else if (line.size() > 2 && line[0] == 'O')
-            v.outcome = line.substr(2);
-        else if (line[0] == 'N')
-        {
-            int nt = 0, fk = -1;
-            std::sscanf(line.c_str() + 2, "%d\t%d", &nt, &fk);
-            v.nontrivial   = nt != 0;
-            W.failing_kind = fk;
-        }
-        else if (line[0] == 'B')
-            std::sscanf(line.c_str() + 2, "%ld\t%ld\t%ld\t%ld", &obs[0], &obs[1], &obs[2], &obs[3]);
-        else if (line[0] == 'K')
-            std::sscanf(line.c_str() + 2, "%ld\t%ld\t%ld\t%ld\t%ld\t%ld", &W.kinds[0], &W.kinds[1], &W.kinds[2],
-                        &W.kinds[3], &W.kinds[4], &W.kinds[5]);
-        else if (line[0] == 'V')
-        {
-            std::size_t t = line.find('\t', 2);
-            if (t != std::string::npos)
-                v.add(line.substr(2, t - 2), line.substr(t + 1));
-        }
-        else if (line[0] == 'T')
-            v.trace.push_back(line.substr(2));
-    }
-    if (complete)
-    {
-        g_obs_top_restored     = obs[0];
-        g_obs_top_not_restored = obs[1];
-        g_obs_any_n1_node      = obs[2];
-        g_obs_any_n1_array     = obs[3];
-    }
-    else
-    {
-        v.outcome = "process-died";
-        v.add("run-process-died",
-              WIFSIGNALED(status) ?
-                  fmt("the run killed its process with signal %d (e.g. the process heap was corrupted by a wrong release)",
-                      WTERMSIG(status)) :
-                  fmt("the run ended its process with status %d", WEXITSTATUS(status)));
-    }
-}
-static void run_case_auto(const helper_entry& h, const case_id& c, verdict& v)
-{
-    if (g_isolate)
-        run_case_isolated(h, c, v);
-    else
-        run_case(h, c, v);
-}
-
-static bool get_str(const std::string& js, const char* key, std::string& out)
-{
-    auto p = js.find(std::string("\"") + key + "\"");
-    if (p == std::string::npos)
-        return false;
-    p = js.find(':', p);
-    p = js.find('"', p);
-    auto q = js.find('"', p + 1);
-    if (p == std::string::npos || q == std::string::npos)
-        return false;
-    out = js.substr(p + 1, q - p - 1);
-    return true;
-}
-static bool get_int(const std::string& js, const char* key, int& out)
-{
-    auto p = js.find(std::string("\"") + key + "\"");
-    if (p == std::string::npos)
-        return false;
-    p   = js.find(':', p);
-    out = std::atoi(js.c_str() + p + 1);
-    return true;
-}
-
-static std::string issues_text(const verdict& v)
-{
-    std::string s;
-    for (auto& i : v.v)
-        s += "[" + i.tag + "] " + i.detail + "; ";
-    return s;
-}
-
-int main(int argc, char** argv)
-{
-    std::string which = "all", tier = "quick", outp, replay;
-    for (int i = 1; i < argc; ++i)
-    {
-        std::string a = argv[i];
-        auto        next = [&] { return i + 1 < argc ? std::string(argv[++i]) : std::string(); };
-        if (a == "--alloc")
-            which = next();
-        else if (a == "--tier")
-            tier = next();
-        else if (a == "--out")
-            outp = next();
-        else if (a == "--replay")
-            replay = next();
-        else
-        {
-            std::fprintf(stderr, "unknown argument %s\n", a.c_str());
-            return 2;
-        }
-    }
-    double t0 = now_s();
-    install_guards(5000);
-    std::set_terminate(h_terminate);
-    auto prev_leak = fm::set_leak_handler(h_leak);
-    fm::set_invalid_pointer_handler(h_invalid);
-    fm::set_buffer_overflow_handler(h_overflow);
-
-    add_fixture<fix_log>("log", std::size_t(-1));
-    add_fixture<fix_pool>("pool", 512, 512, 16384);
-    add_fixture<fix_pool>("pool16", 16, 16, 4096);
-    add_fixture<fix_stack>("stack", 4096);
-    add_fixture<fix_heap>("heap", std::size_t(-1));
-
-    if (!replay.empty())
-    {
-        case_id c;
-        if (!get_str(replay, "alloc", c.alloc) || !get_str(replay, "helper", c.helper) || !get_int(replay, "n", c.n)
-            || !get_int(replay, "k", c.k))
-        {
-            std::fprintf(stderr, "bad replay input %s\n", replay.c_str());
-            return 2;
-        }
-        get_int(replay, "slack", c.slack);
-        g_verbose = true;
-        for (auto& f : FIX)
-            if (f.name == c.alloc)
-                for (auto& h : f.helpers)
-                    if (h.name == c.helper)
-                    {
-                        select_fixture(f);
-                        verdict v;
-                        run_case_auto(h, c, v);
-                        std::printf("case %s\noutcome: %s\n", c.json().c_str(), v.outcome.c_str());
-                        for (auto& l : v.trace)
-                            std::printf("  %s\n", l.c_str());
-                        for (auto& i : v.v)
-                            std::printf("VIOLATED [%s] %s\n", i.tag.c_str(), i.detail.c_str());
-                        std::printf("%s\n", v.v.empty() ? "no violation" : "violation");
-                        return v.v.empty() ? 0 : 1;
-                    }
-        std::fprintf(stderr, "no such allocator/helper: %s\n", replay.c_str());
-        return 2;
-    }
-
-    std::vector<int> slacks = {0};
-    if (tier == "thorough")
-        slacks = {0, 8, 40};
-
-    long                  evaluations = 0, excluded = 0, successes = 0, rollbacks = 0;
-    std::set<std::string> distinct;
-    std::map<std::string, long> per_helper;
-    std::map<std::string, long> fail_kinds;
-    jarr                  samples, viol, herr;
-    int                   nsamples = 0, nviol = 0;
-    std::set<std::string> viol_tags;
-
-    for (auto& f : FIX)
-    {
-        if (which != "all" && which != f.name)
-            continue;
-        select_fixture(f);
-        for (auto& h : f.helpers)
-            for (int slack : slacks)
-            {
-                if (slack != 0 && !h.uses_slack)
-                    continue;
-                for (int n = h.nmin; n <= h.nmax; ++n)
-                {
-                    if (h.need(n, slack) > f.max_node)
-                    {
-                        // documented precondition: node size must not exceed the pool's node size
-                        excluded += (h.throwing ? h.points(n) : 0) + 1;
-                        continue;
-                    }
-                    int kmax = h.throwing ? h.points(n) : 0;
-                    for (int k = 0; k <= kmax; ++k)
-                    {
-                        case_id c;
-                        c.alloc  = f.name;
-                        c.helper = h.name;
-                        c.n      = n;
-                        c.k      = k;
-                        c.slack  = slack;
-                        verdict v;
-                        run_case_auto(h, c, v);
-                        ++evaluations;
-                        ++per_helper[h.name];
-                        if (v.outcome == "success")
-                            ++successes;
-                        else if (v.outcome == "rollback")
-                        {
-                            ++rollbacks;
-                            ++fail_kinds[okind_name(W.failing_kind >= 0 ? W.failing_kind : K_DTOR)];
-                        }
-                        if (v.nontrivial)
-                            distinct.insert(c.json());
-                        if (!v.v.empty())
-                        {
-                            // re-check once: the verdict must be reproducible
-                            verdict v2;
-                            run_case_auto(h, c, v2);
-                            std::set<std::string> t1, t2;
-                            for (auto& i : v.v)
-                                t1.insert(i.tag);
-                            for (auto& i : v2.v)
-                                t2.insert(i.tag);
-                            if (t1 != t2)
-                            {
-                                herr.str("verdict not reproducible for " + c.json() + ": " + issues_text(v) + " vs "
-                                         + issues_text(v2));
-                                continue;
-                            }
-                            for (auto& i : v.v)
-                            {
-                                ++nviol;
-                                // report every tag once per helper, capped
-                                std::string key = i.tag + "|" + h.name;
-                                if (viol_tags.count(key) || viol_tags.size() >= 60)
-                                    continue;
-                                viol_tags.insert(key);
-                                std::string tr;
-                                for (auto& l : v.trace)
-                                    tr += l + "\n";
-                                viol.raw(jobj()
-                                             .str("tag", i.tag)
-                                             .str("detail", c.helper + " on " + c.alloc + fmt(" n=%d k=%d: ", c.n, c.k)
-                                                                + i.detail)
-                                             .raw("input", c.json())
-                                             .done());
-                            }
-                        }
-                        else if (nsamples < 6 && v.nontrivial && (k == kmax || k == 0) && n == 3)
-                        {
-                            ++nsamples;
-                            verdict vs;
-                            g_verbose = true;
-                            run_case_auto(h, c, vs);
-                            g_verbose = false;
-                            jarr tr;
-                            for (auto& l : vs.trace)
-                                tr.str(l);
-                            samples.raw(jobj().raw("case", c.json()).str("outcome", vs.outcome).raw("log", tr.done()).done());
-                        }
-                    }
-                }
-            }
-    }
-
-    jobj extra;
-    extra.num("success_runs", successes).num("rollback_runs", rollbacks).num("violating_checks", nviol);
-    {
-        jobj ph;
-        for (auto& kv : per_helper)
-            ph.num(kv.first, kv.second);
-        extra.raw("runs_per_helper", ph.done());
-        jobj fk;
-        for (auto& kv : fail_kinds)
-            fk.num(kv.first, kv.second);
-        extra.raw("rollbacks_per_failing_operation", fk.done());
-        jobj ok;
-        for (int i = 0; i != 6; ++i)
-            ok.num(okind_name(i), W.kinds[i]);
-        extra.raw("element_operations_total", ok.done());
-        extra.raw("observations",
-                  jobj()
-                      .num("standalone_joint_array_failed_stack_top_restored", g_obs_top_restored)
-                      .num("standalone_joint_array_failed_stack_top_not_restored", g_obs_top_not_restored)
-                      .num("type_erased_array_n1_allocated_as_node", g_obs_any_n1_node)
-                      .num("type_erased_array_n1_allocated_as_array", g_obs_any_n1_array)
-                      .done());
-        extra.num("debug_assert", FOONATHAN_MEMORY_DEBUG_ASSERT).num("debug_fence", FOONATHAN_MEMORY_DEBUG_FENCE);
-    }
-
-    jobj o;
-    o.num("evaluations", evaluations)
-        .num("distinct_nontrivial", (long long)distinct.size())
-        .str("rule",
-             "one run per (allocator fixture, helper / joint_array constructor form, array length n in 0..16 "
-             "[single objects n=1], capacity slack, failing construction index k in 1..points plus k=0 success run), "
-             "points = n element constructions (+1 for the body of the joint type's constructor); a run is "
-             "non-trivial when at least one construction step or allocator call happened inside the armed window; "
-             "distinct = distinct (allocator, helper, n, k, slack) tuples that reached the oracle")
-        .raw("samples", samples.done())
-        .boolean("exhaustive", true)
-        .num("excluded", excluded)
-        .dbl("wall_s", now_s() - t0)
-        .raw("violations", viol.done())
-        .raw("harness_errors", herr.done())
-        .raw("extra", extra.done());
-    std::string js = o.done();
-    if (outp.empty())
-        std::printf("%s\n", js.c_str());
-    else
-    {
-        FILE* f = std::fopen(outp.c_str(), "w");
-        if (!f)
-            return 2;
-        std::fputs(js.c_str(), f);
-        std::fputs("\n", f);
-        std::fclose(f);
-    }
-    fm::set_leak_handler(prev_leak);
-    return 0;
-}
+// The implementation lives in exc_impl.hpp so that h_exc_o2.cpp can reuse it.
+#include "exc_impl.hpp"
